@@ -102,4 +102,11 @@ CHECKS.update({
         "technique": "symbolic execution (CrossHair + z3) of the real value classes with post-comparison mutation; read-back oracle",
     },
 })
+CHECKS.update({
+    "C14": {
+        "text": "D-core on 4 layouts of three call sites (two on one line, helper argument, nested function + comprehension + lambda, module level shared by two tests) evaluated in an interleaving given by a symbolic schedule (site index per step) with symbolic values, empty or pre-filled; the solver confirms on every path that each site's value read back equals the documented model applied to that site's own observation subsequence (no leakage, aggregation = max / min / union) and that never-evaluated sites are untouched. Re-evaluating a snapshot whose hand-written argument changed (solver-decided inequality) raises UsageError; with Is() it never does and the current value is used.",
+        "note": "Bound: 3 sites, <=3 (4) evaluations, 6 argument forms. executing's node lookup runs for real. One defect found here was repaired (fix: f3d9927).",
+        "technique": "symbolic execution (CrossHair + z3) over symbolic evaluation schedules and values; per-site model oracle",
+    },
+})
 NOT_APPLICABLE = {}
